@@ -262,6 +262,54 @@ func c19Order(orders [][]string, es []c19E) string {
 	return ""
 }
 
+// Hash1 must not modify the slice it is given (it documents a sorted COPY): callers keep
+// using their list, e.g. as the index of parallel data, while Hash1 calls back into open.
+func c19ArgIntact(names []string, es []c19E) string {
+	arg := append([]string(nil), names...)
+	c19RunHash1(arg, es)
+	for i := range names {
+		if arg[i] != names[i] {
+			return fmt.Sprintf("Hash1 modified its argument: passed %q, afterwards %q", names, arg)
+		}
+	}
+	return ""
+}
+
+// A caller that keeps names and contents in parallel slices and whose open callback finds
+// the content by the position of the name in ITS slice at the time of the call. es is
+// duplicate-free, readable and newline-free; every order is the caller's slice in another
+// permutation (contents permuted along). All must give the documented hash.
+func c19IndexOpen(orders [][]string, es []c19E) string {
+	want := c19Spec(c19Names(es), c19Lookup(es)).String()
+	lookup := c19Lookup(es)
+	for _, o := range orders {
+		names := append([]string(nil), o...)
+		contents := make([]string, len(names))
+		for i, n := range names {
+			contents[i], _ = lookup(n)
+		}
+		open := func(name string) (io.ReadCloser, error) {
+			for i := range names {
+				if names[i] == name {
+					return io.NopCloser(strings.NewReader(contents[i])), nil
+				}
+			}
+			return nil, errors.New("no such file")
+		}
+		var got wire.Val
+		if p, _ := hx.Guard(func() {
+			s, err := c19Hash(names, open)
+			got = c19Project(s, err)
+		}); p {
+			got = wire.Panic()
+		}
+		if got.String() != want {
+			return fmt.Sprintf("caller with parallel slices listing %q: Hash1 = %s, documented formula gives %s", o, got, want)
+		}
+	}
+	return ""
+}
+
 // every name of es with a newline inserted at every position (and replacing every byte)
 // must be refused with the newline error; es is readable and newline-free.
 func c19Newline(es []c19E) string {
@@ -1080,9 +1128,32 @@ func runC19(c *hx.Ctx) {
 		c.Check("hash1-formula", msg == "", "", c19In{Op: "formula", Orders: c19HexOrders(orders[:1]), Es: c19ToJ(es)}, msg)
 		msg = c19Order(orders, es)
 		c.Check("order-independence", msg == "", "", c19In{Op: "order", Orders: c19HexOrders(orders), Es: c19ToJ(es)}, msg)
+		for _, o := range orders[:2] {
+			if !sort.StringsAreSorted(o) {
+				c.Count("hash1-arg:unsorted")
+			} else {
+				c.Count("hash1-arg:sorted")
+			}
+			msg = c19ArgIntact(o, es)
+			c.Check("hash1-argument-unmodified", msg == "", "", c19In{Op: "intact", Orders: c19HexOrders([][]string{o}), Es: c19ToJ(es)}, msg)
+		}
 		if i%97 == 0 {
 			c.Sample(fmt.Sprintf("Hash1(%q) = %s", orders[0], res))
 		}
+	}
+
+	// 1b. callers with parallel slices and an index-based open (oracle only: the model's
+	// list is immutable, so there is nothing for a correspondence case to compare)
+	for i := 0; i < c.N(700); i++ {
+		es := c19Tree(r, false)
+		if i%7 == 0 {
+			es = []c19E{{N: "go.mod", C: "module m\n"}, {N: "a.go", C: "package a\n"}, {N: "z.go", C: "package z\n"}}
+		}
+		names := c19Names(es)
+		orders := [][]string{names, c19Shuffled(r, names), c19Shuffled(r, names)}
+		c.Count(fmt.Sprintf("index-open-size:%d", min(len(es), 8)))
+		msg := c19IndexOpen(orders, es)
+		c.Check("hash1-index-open-formula+orders", msg == "", "", c19In{Op: "indexopen", Orders: c19HexOrders(orders), Es: c19ToJ(es)}, msg)
 	}
 
 	// 2. distinct sets => distinct summaries, on near-collisions
@@ -1292,6 +1363,10 @@ func replayC19(raw json.RawMessage) (bool, string) {
 		msg = c19Formula(orders[0], es)
 	case "order":
 		msg = c19Order(orders, es)
+	case "intact":
+		msg = c19ArgIntact(orders[0], es)
+	case "indexopen":
+		msg = c19IndexOpen(orders, es)
 	case "newline":
 		msg = c19Newline(es)
 	case "near":
